@@ -43,28 +43,28 @@ func (r *Resp) is4xx() bool { return r.Code >= 400 && r.Code < 500 }
 func (r *Resp) is5xx() bool { return r.Code >= 500 }
 
 type World struct {
-	x      *X
-	k      Knobs
-	srv    *Server
-	m      *Model
-	root   string // storage root directory ("" for pure memory)
-	gen    int
-	closed bool
-	name   string // "dir", "mem" … for differential runs
-	tainted map[string]bool // repositories in which a disk fault was injected
-	faultsSeen int
-	inFlightEvict map[string]bool
-	quiet  bool // suppress model-based oracles (used while replaying on a secondary store)
-	reqN   int
-	cancelNext bool
-	abortedReq bool
-	addressed  map[string]bool
-	restartAt  int
+	x                *X
+	k                Knobs
+	srv              *Server
+	m                *Model
+	root             string // storage root directory ("" for pure memory)
+	gen              int
+	closed           bool
+	name             string          // "dir", "mem" … for differential runs
+	tainted          map[string]bool // repositories in which a disk fault was injected
+	faultsSeen       int
+	inFlightEvict    map[string]bool
+	quiet            bool // suppress model-based oracles (used while replaying on a secondary store)
+	reqN             int
+	cancelNext       bool
+	abortedReq       bool
+	addressed        map[string]bool
+	restartAt        int
 	lenientUpload5xx bool
-	closing    bool // Close was called while requests are in flight: only liveness is judged
-	lastGCBusy bool
-	sessions map[int]*MSess
-	props  []string // properties this run's generic oracles speak for in addition to their own
+	closing          bool // Close was called while requests are in flight: only liveness is judged
+	lastGCBusy       bool
+	sessions         map[int]*MSess
+	props            []string // properties this run's generic oracles speak for in addition to their own
 }
 
 func newWorld(x *X, k Knobs, root, name string) *World {
@@ -143,21 +143,21 @@ func (b *bodyReader) Read(p []byte) (int, error) {
 func (b *bodyReader) Close() error { return nil }
 
 type reqSpec struct {
-	method  string
-	path    string // already escaped path
-	query   string
-	hdr     http.Header
-	body    []byte
-	pieces  []int
-	sleepMs int64
-	abort   bool
-	abortAt int
-	noBody  bool
+	method     string
+	path       string // already escaped path
+	query      string
+	hdr        http.Header
+	body       []byte
+	pieces     []int
+	sleepMs    int64
+	abort      bool
+	abortAt    int
+	noBody     bool
 	unknownLen bool
-	cl      *int64 // explicit Content-Length override
-	addr    string
-	repos   []string // repositories this request addresses (for the path monitor)
-	ctx     context.Context
+	cl         *int64 // explicit Content-Length override
+	addr       string
+	repos      []string // repositories this request addresses (for the path monitor)
+	ctx        context.Context
 }
 
 func routeOf(method, p string) string {
@@ -264,6 +264,8 @@ func (w *World) do(rs reqSpec) *Resp {
 				resp.PanicMsg = fmt.Sprintf("%v\n%s", r, debug.Stack())
 			}
 		}()
+		simrt.EnterServer()
+		defer simrt.LeaveServer()
 		w.srv.ServeHTTP(rec, req)
 	}()
 	resp.fsTo = w.x.sim.FS.N
